@@ -195,14 +195,4 @@ Proof.
     apply Reach_here. split; [same_state|exact Hv].
 Qed.
 
-(* ---------- stages B-E assembled: everything except for ---------- *)
-Fixpoint no_for (s : stmt) : Prop :=
-  match s with
-  | SSeq a b => no_for a /\ no_for b
-  | SIf _ a b => no_for a /\ no_for b
-  | SWhile _ b => no_for b
-  | SFor _ _ _ _ => False
-  | _ => True
-  end.
-
 End Call.
